@@ -137,6 +137,11 @@ def container(v, how):
         return tuple(v)
     if how == 'ndarray':
         return np.array(v, dtype=float)
+    if how in ('ints', 'intarray'):
+        # whole numbers handed over as Python ints / an integer array (bounds = (-12, 2) as written in many input files)
+        if all(float(x).is_integer() for x in v):
+            return [int(x) for x in v] if how == 'ints' else np.array([int(x) for x in v], dtype=np.int64)
+        return list(v)
     return list(v)
 
 
@@ -442,7 +447,9 @@ def explore(ctx):
               {'cls': 'LogGaussian', 'kw': {}}]
     for cls in ('Uniform', 'LogUniform'):
         for b in bpairs:
-            for cont in ('list', 'tuple', 'ndarray'):
+            for cont in ('list', 'tuple', 'ndarray', 'ints', 'intarray'):
+                if cont in ('ints', 'intarray') and not all(float(x).is_integer() for x in b):
+                    continue
                 direct.append({'cls': cls, 'kw': {'bounds': b}, 'container': cont})
     for cls in ('Gaussian', 'LogGaussian'):
         for m, s in ms:
